@@ -214,7 +214,7 @@ def run_eloss(ctx, proofs_ok):
     ctx.build_libs(["celeritas"])
     exe = ctx.compile_harness([os.path.join(HERE_, "harness", "eloss.cc")], "eloss",
                               libs=["celeritas", "orange", "geocel", "corecel"])
-    n = 180 if ctx.tier == "quick" else 4000
+    n = 150 if ctx.tier == "quick" else 4000
     cases = gen_eloss_cases(ctx, n)
     rc, out = ctx.run_harness(exe, input="".join(eloss_line(c) + "\n" for c in cases), timeout=900)
     lines = [l for l in out.strip().splitlines() if l.startswith(("ok", "exhausted", "unknown"))]
@@ -433,7 +433,7 @@ def run_stats(ctx, exe):
 
 
 def run(ctx):
-    n = 600 if ctx.tier == "quick" else 12000
+    n = 450 if ctx.tier == "quick" else 12000
     ctx.trusted += [
         "hand-written models coq/C15/Samplers.v, coq/C15/Eloss.v tied by replay-RNG differential (props/C15/run.py, harness/samplers.cc, harness/eloss.cc)",
         "EnergyLossUrbanDistribution's constructor (cross sections from material data) is not modelled: its state is read from the object; EnergyLossHelper's kinematic inputs (gamma, beta^2, Bohr variance) are taken from the implementation",
